@@ -348,12 +348,17 @@ def filterSVCBHint (e : Engines) (s : Setts) : List IP → Except Fault (Option 
     | .error f => .error f
     | .ok r => if r.isFiltered then .ok (some r) else filterSVCBHint e s rest
 
+/-- the addresses of an `ipv4hint` / `ipv6hint` parameter -/
+def SvcParam.ips : SvcParam → List IP
+  | .hint4 l => l
+  | .hint6 l => l
+  | .other _ => []
+
 /-- the loop of `filterHTTPSRecords` over the (already stripped) parameters -/
 def filterHTTPSParams (e : Engines) (s : Setts) : List SvcParam → Except Fault (Option Result)
   | [] => .ok none
   | p :: rest =>
-    let ips : List IP := match p with | .hint4 l => l | .hint6 l => l | .other _ => []
-    match filterSVCBHint e s ips with
+    match filterSVCBHint e s p.ips with
     | .error f => .error f
     | .ok (some r) => .ok (some r)
     | .ok none => filterHTTPSParams e s rest
@@ -403,8 +408,12 @@ inductive Outcome where
   | done (res : Msg) (log : List Query) (qlog : Option QLog)
   deriving Repr
 
-def mozillaFQDN : Bytes := Bytes.ofString "use-application-dns.net."
-def healthcheckFQDN : Bytes := Bytes.ofString "healthcheck.adguardhome.test."
+/-- "use-application-dns.net." -/
+def mozillaFQDN : Bytes :=
+  [117, 115, 101, 45, 97, 112, 112, 108, 105, 99, 97, 116, 105, 111, 110, 45, 100, 110, 115, 46, 110, 101, 116, 46]
+/-- "healthcheck.adguardhome.test." -/
+def healthcheckFQDN : Bytes :=
+  [104, 101, 97, 108, 116, 104, 99, 104, 101, 99, 107, 46, 97, 100, 103, 117, 97, 114, 100, 104, 111, 109, 101, 46, 116, 101, 115, 116, 46]
 
 /-- The mock upstream: scripted rcode and answer section for whatever is asked. -/
 structure Upstream where
@@ -415,38 +424,46 @@ structure Upstream where
 def Upstream.exchange (u : Upstream) (q : Query) : Msg :=
   { rcode := u.rcode, qname := q.name, qtype := q.qtype, answer := u.answer }
 
-/-- `handleDNSRequest`: processInitial, processFilteringBeforeRequest,
-processUpstream, processFilteringAfterResponse, processQueryLogsAndStats. -/
-def handle (e : Engines) (c : Conf) (u : Upstream) (q : Query) : Outcome :=
-  -- processInitial
-  if c.aaaaDisabled ∧ q.qtype = tAAAA then .done (msgNODATA c q) [] none
-  else if (q.qtype = tA ∨ q.qtype = tAAAA) ∧ q.name = mozillaFQDN then .done (msgNXDOMAIN c q) [] none
-  else if q.name = healthcheckFQDN then .done (reply q rcSuccess) [] none
-  else
-    let s := settings c
-    -- processFilteringBeforeRequest / filterDNSRequest
-    match checkHost e (trimDot q.name) q.qtype s with
-    | .error _ => .err
-    | .ok res =>
-      if res.isFiltered then
-        -- the response is set; processUpstream does nothing; the after-response
-        -- stage does nothing because the response is not from the upstream
-        .done (genDNSFilterMessage c q res) []
-          (some { reason := res.reason, isFiltered := true, svcName := res.svcName, origAnswer := none })
+/-- `processInitial`: the queries the server answers itself before any filtering. -/
+def shortCircuit (c : Conf) (q : Query) : Option Outcome :=
+  if c.aaaaDisabled ∧ q.qtype = tAAAA then some (.done (msgNODATA c q) [] none)
+  else if (q.qtype = tA ∨ q.qtype = tAAAA) ∧ q.name = mozillaFQDN then some (.done (msgNXDOMAIN c q) [] none)
+  else if q.name = healthcheckFQDN then some (.done (reply q rcSuccess) [] none)
+  else none
+
+/-- processFilteringBeforeRequest, processUpstream, processFilteringAfterResponse,
+processQueryLogsAndStats. -/
+def handleMain (e : Engines) (c : Conf) (u : Upstream) (q : Query) : Outcome :=
+  let s := settings c
+  -- processFilteringBeforeRequest / filterDNSRequest
+  match checkHost e (trimDot q.name) q.qtype s with
+  | .error _ => .err
+  | .ok res =>
+    if res.isFiltered then
+      -- the response is set; processUpstream does nothing; the after-response
+      -- stage does nothing because the response is not from the upstream
+      .done (genDNSFilterMessage c q res) []
+        (some { reason := res.reason, isFiltered := true, svcName := res.svcName, origAnswer := none })
+    else
+      -- processUpstream
+      let resp := u.exchange q
+      -- processFilteringAfterResponse
+      if res.reason = .allowList ∨ !s.protection ∨ !s.filtering then
+        .done resp [q] (some { reason := res.reason, isFiltered := false, svcName := res.svcName, origAnswer := none })
       else
-        -- processUpstream
-        let resp := u.exchange q
-        -- processFilteringAfterResponse
-        if res.reason = .allowList ∨ !s.protection ∨ !s.filtering then
-          .done resp [q] (some { reason := res.reason, isFiltered := false, svcName := res.svcName, origAnswer := none })
-        else
-          match filterAnswers e c s resp.answer with
-          | .error _ => .err
-          | .ok (ans', some r) =>
-            .done (genDNSFilterMessage c q r) [q]
-              (some { reason := r.reason, isFiltered := true, svcName := r.svcName, origAnswer := some ans' })
-          | .ok (ans', none) =>
-            .done { resp with answer := ans' } [q]
-              (some { reason := res.reason, isFiltered := false, svcName := res.svcName, origAnswer := none })
+        match filterAnswers e c s resp.answer with
+        | .error _ => .err
+        | .ok (ans', some r) =>
+          .done (genDNSFilterMessage c q r) [q]
+            (some { reason := r.reason, isFiltered := true, svcName := r.svcName, origAnswer := some ans' })
+        | .ok (ans', none) =>
+          .done { resp with answer := ans' } [q]
+            (some { reason := res.reason, isFiltered := false, svcName := res.svcName, origAnswer := none })
+
+/-- `handleDNSRequest` -/
+def handle (e : Engines) (c : Conf) (u : Upstream) (q : Query) : Outcome :=
+  match shortCircuit c q with
+  | some o => o
+  | none => handleMain e c u q
 
 end AGH.Filter
